@@ -5,11 +5,11 @@ from xml.sax.saxutils import escape
 
 DOC_TAGS = {"author": "author", "version": "version", "date": "date", "repository": "repository"}
 SEC_TAGS = {"definition": "definition", "reference": "reference", "repository": "repository",
-            "link": "link", "include": "include", "sec_cardinality": "sectioncardinality",
-            "prop_cardinality": "propertycardinality"}
+            "link": "link", "include": "include", "sec_cardinality": "sec_cardinality",
+            "prop_cardinality": "prop_cardinality"}
 PROP_TAGS = {"unit": "unit", "uncertainty": "uncertainty", "definition": "definition",
              "reference": "reference", "dependency": "dependency", "dependency_value": "dependencyvalue",
-             "value_origin": "valueorigin", "val_cardinality": "valuecardinality"}
+             "value_origin": "value_origin", "val_cardinality": "val_cardinality"}
 
 
 def _text(v):
@@ -25,8 +25,20 @@ def _text(v):
     return str(v)
 
 
+VARIANT = ["compact"]
+
+
+def _enc(text):
+    if VARIANT[0] == "numeric-refs":
+        # every non-alphanumeric character as a numeric character reference
+        return "".join(c if (c.isalnum() and ord(c) < 128) else "&#%d;" % ord(c) for c in text)
+    return escape(text)
+
+
 def _el(tag, text, ind):
-    return "%s<%s>%s</%s>\n" % (ind, tag, escape(text), tag)
+    if VARIANT[0] == "padded" and text != "":
+        return "%s<%s>\n%s    %s\n%s</%s>\n" % (ind, tag, ind, escape(text), ind, tag)
+    return "%s<%s>%s</%s>\n" % (ind, tag, _enc(text), tag)
 
 
 def prop_xml(p, ind="", numeric_refs=False):
@@ -64,7 +76,8 @@ def sec_xml(s, ind=""):
     return out + ind + "</section>\n"
 
 
-def doc_xml(spec, version="1.1"):
+def doc_xml(spec, version="1.1", variant="compact"):
+    VARIANT[0] = variant
     out = '<?xml version="1.0" encoding="UTF-8"?>\n<odML version="%s">\n' % version
     for s in spec.get("sections", []):
         out += sec_xml(s, "  ")
